@@ -72,6 +72,17 @@ CALLS = {
 }
 
 
+# wrong types where a strategy is expected: an XML-RPC boolean (a bool is an int for Python), a double, nil, an array
+for _method, _args in (('start_application', lambda v: (v, 'mapp', False)), ('test_start_application', lambda v: (v, 'mapp')),
+                       ('restart_application', lambda v: (v, 'rapp', False)),
+                       ('start_process', lambda v: (v, 'mapp:idle', '', False)),
+                       ('test_start_process', lambda v: (v, 'mapp:idle')),
+                       ('start_any_process', lambda v: (v, 'idl', '', False)),
+                       ('restart_process', lambda v: (v, 'rapp:run', '', False)), ('conciliate', lambda v: (v,))):
+    for _label, _value in (('true', True), ('false', False), ('double', 1.0), ('nil', None), ('array', ['CONFIG'])):
+        CALLS[_method].append((f'strategy_{_label}', _args(_value), INCORRECT_PARAMETERS))
+
+
 class Updater:
     """stands for SupervisorUpdater (glue to supervisord internals): records what it is asked"""
     def __init__(self):
